@@ -44,12 +44,19 @@ Example C04_nonvacuous :
 Proof. cbv zeta. split; [|split]; vm_compute; reflexivity. Qed.
 
 (* the operators' DE-DUPLICATION state (Dedup.v): any history of evaluations of one query object - each consumed completely or
-   abandoned / aborted after n results - whatever state an evaluation would leave in the seen sets: every evaluation starts from the
-   empty state and returns (a prefix of) what the query returns on its own.  That An.evaluate / The.evaluate reset the state in a
-   `finally` clause around the whole evaluation is read from the source by the translator on every run
-   (Generated.evaluation_resets_dedup_state): the theorem stops compiling if the reset becomes conditional *)
-Theorem C04_dedup_state_reset : forall h dom leftover sel c steps i,
-  history_rows h dom leftover sel c steps i DL =
-  map (fun k => match k with None => run_queryD h dom sel c | Some n => firstn n (run_queryD h dom sel c) end) steps.
+   abandoned / aborted after n results, the abandoned iterator closed, dropped or STILL REFERENCED (then its finally clause has not
+   run) - whatever state an evaluation leaves in the seen sets and from whatever state the history starts: every evaluation returns
+   (a prefix of) what the query returns on its own.  That An.evaluate / The.evaluate reset the state before they start and in a
+   `finally` clause around the whole evaluation is read from the source by the translator on every run: the theorem stops
+   compiling if the reset at the start disappears *)
+Theorem C04_dedup_state_reset : forall h dom leftover sel c steps i s,
+  history_rows h dom leftover sel c steps i s =
+  map (fun st : option nat * bool => match fst st with None => run_queryD h dom sel c | Some n => firstn n (run_queryD h dom sel c) end) steps.
 Proof. exact history_rows_independent. Qed.
 Print Assumptions C04_dedup_state_reset.
+
+(* both resets are there (the one in `finally` keeps an abandoned-and-dropped evaluation from leaving anything behind; the one at the
+   start covers the evaluation whose iterator is still referenced) *)
+Theorem C04_both_resets : evaluation_resets_dedup_state = true /\ evaluation_resets_dedup_state_at_start = true.
+Proof. split; [exact evaluation_resets | exact evaluation_resets_at_start]. Qed.
+Print Assumptions C04_both_resets.
